@@ -206,9 +206,12 @@ def generated_blocks(fn):
         if not (isinstance(loop.target, ast.Name) and unparse(loop.iter).replace(" ", "") == "%s[1:]" % gparam):
             out.append((desc, False, "later grids are taken from `%s`, not from %s[1:]: some grid gets no block or the first one gets two" % (unparse(loop.iter), gparam), line))
             continue
-        app = loop.body[0] if len(loop.body) == 1 else None
-        if not (isinstance(app, ast.Expr) and isinstance(app.value, ast.Call) and unparse(app.value.func) == "%s.append" % dparam and len(app.value.args) == 1):
-            raise AnalysisError("union: branch `%s`: loop body is not a single %s.append(...)" % (desc, dparam))
+        # the loop body: locals computed from the blocks, then exactly one append
+        pre = [s for s in loop.body[:-1]]
+        app = loop.body[-1] if loop.body else None
+        if not (isinstance(app, ast.Expr) and isinstance(app.value, ast.Call) and unparse(app.value.func) == "%s.append" % dparam and len(app.value.args) == 1) \
+                or not all(isinstance(s, ast.Assign) and len(s.targets) == 1 and isinstance(s.targets[0], ast.Name) for s in pre):
+            raise AnalysisError("union: branch `%s`: loop body is not `<locals>; %s.append(...)`" % (desc, dparam))
         e = Eval(fn, normalizers)
         try:
             first = e.ev(init.value.elts[0], {gparam: {0: GridRef("g0")}})
@@ -221,6 +224,8 @@ def generated_blocks(fn):
         frst = Blk(Lin.sym("lo:first"), Lin.sym("hi:first"), "first")
         env = {loop.target.id: GridRef("g"), dparam: {-1: prev, 0: frst}, gparam: {0: GridRef("g0")}}
         try:
+            for st_ in pre:
+                env[st_.targets[0].id] = e.ev(st_.value, env)
             new = e.ev(app.value.args[0], env)
         except Unsupported as u:
             raise AnalysisError("union: branch `%s`: appended block not modelled (%s)" % (desc, u))
